@@ -3,7 +3,7 @@ are matched by their decoded value" is decided: an escaped key is decoded from a
 private copy that contains the closing quote and VEC_LEN-1 bytes of slack, the
 decoded key node owns the buffer exactly when one was allocated, and a decode
 error frees the buffer and is returned (DESIGN.md section 5/C20)."""
-from ..core import get_facts, strip, strip_expect, cval, show, walk, locline
+from ..core import get_facts, strip, strip_expect, cval, show, walk, locline, AnalysisBroken
 from ..e2_dom import Must
 from . import c11, c11_entry
 
@@ -77,6 +77,185 @@ def ownership(facts, rep):
     rep.require(n >= 3, 'C20: only %d ownership obligations found' % n)
 
 
+def merge_skeleton(facts, rep):
+    """Structure of UpdateNodeLazy that the merge semantics needs (necessary conditions, not the semantics):
+    (A) the loop runs over [source.MemberBegin(), source.MemberEnd()) in steps of one and every iteration either
+        appends the member (AddMember with the member's own name and value) or merges it into the member found in
+        the target (recursive call on (match->value, iter->value)) before it advances;
+    (B) the replace-or-merge decision, evaluated over the eight truth assignments of (target is object, source is
+        object, target is empty), replaces exactly when NOT(target object AND source object AND target non-empty);
+    (C) a success return is preceded by the replacement, by the completion of the member loop, or sits behind tests
+        establishing "both objects, target non-empty, source empty" (nothing to merge)."""
+    n = 0
+    for f in facts.functions:
+        if f.short != 'UpdateNodeLazy':
+            continue
+        rep.fn(f)
+        ps = [p['id'] for p in f.params]
+        rep.require(len(ps) >= 2, 'C20: UpdateNodeLazy parameters not bound')
+        tid, sid = ps[0], ps[1]
+
+        def on(c, pid):
+            o = strip(c.get('obj')) if c.get('obj') is not None else None
+            return o is not None and o.get('k') == 'ref' and o.get('id') == pid
+
+        def atom(cond):
+            """(name, negated) for the boolean atoms of the decision"""
+            c = strip_expect(cond)
+            neg = False
+            while c is not None and c.get('k') == 'un' and c['op'] == '!':
+                neg = not neg
+                c = strip_expect(c['e'])
+            if c is None or c.get('k') != 'call':
+                return None
+            if c.get('cname') == 'IsObject' and on(c, tid):
+                return ('tobj', neg)
+            if c.get('cname') == 'IsObject' and on(c, sid):
+                return ('sobj', neg)
+            if c.get('cname') == 'Empty' and on(c, tid):
+                return ('tempty', neg)
+            if c.get('cname') == 'Empty' and on(c, sid):
+                return ('sempty', neg)
+            return None
+        # locate the replacement statement and the loop
+        repl = None
+        loop_head = None
+        for bid, B in f.blocks.items():
+            for i, st in enumerate(B['stmts']):
+                s_ = strip(st)
+                if s_ is not None and s_.get('k') == 'call' and s_.get('cname') == 'operator=' and len(s_.get('args', [])) == 2:
+                    a0 = strip(s_['args'][0])
+                    if a0 is not None and a0.get('k') == 'ref' and a0.get('id') == tid and any(x.get('k') == 'ref' and x.get('id') == sid for x in walk(s_['args'][1])):
+                        repl = (bid, i)
+            t = B.get('term')
+            if t and t.get('cls') in ('ForStmt', 'WhileStmt') and t.get('cond') is not None:
+                loop_head = bid
+        rep.require(repl is not None and loop_head is not None, 'C20: replacement statement / member loop of UpdateNodeLazy not found')
+        if repl is None or loop_head is None:
+            continue
+        # (B) truth table: start at the first block whose terminator is one of the atoms
+        first = None
+        order = []
+        for bid in sorted(f.blocks, reverse=True):
+            t = f.blocks[bid].get('term')
+            if t and t.get('cond') is not None and atom(t['cond']):
+                order.append(bid)
+        # the entry of the decision: the atom block that no other atom block reaches... take the one reached first from the entry
+        import itertools
+        bad = []
+        for tobj, sobj, tempty, sempty in itertools.product((0, 1), repeat=4):
+            env = {'tobj': tobj, 'sobj': sobj, 'tempty': tempty, 'sempty': sempty}
+            # walk from function entry, taking both outcomes of non-atom branches is not needed: raw lowering and the
+            # error exit precede the decision, so start from the unique atom block that dominates the others
+            cur = None
+            for bid in order:
+                preds_atom = [b for b in order if bid in [x for x in f.blocks[b]['succs'] if x is not None]]
+                if not preds_atom:
+                    cur = bid
+            if cur is None:
+                raise AnalysisBroken('C20: decision entry of UpdateNodeLazy not found')
+            outcome = None
+            for _ in range(12):
+                B = f.blocks[cur]
+                if cur == repl[0]:
+                    outcome = 'replace'
+                    break
+                if cur == loop_head or any(x.get('k') == 'call' and x.get('cname') in ('CreateMap', 'MemberBegin') for st in B['stmts'] for x in walk(st)):
+                    outcome = 'merge'
+                    break
+                t = B.get('term')
+                a = atom(t['cond']) if t and t.get('cond') is not None else None
+                if a is None or a[0] not in env:
+                    nn = [x for x in B['succs'] if x is not None]
+                    if len(nn) != 1:
+                        raise AnalysisBroken('C20: unexpected branch %s inside the replace-or-merge decision' % (show(t['cond']) if t and t.get('cond') else cur))
+                    cur = nn[0]
+                    continue
+                v = bool(env[a[0]]) != a[1]
+                cur = B['succs'][0] if v else B['succs'][1]
+            want = 'merge' if (tobj and sobj and not tempty) else 'replace'
+            if outcome != want:
+                bad.append('target object=%d, source object=%d, target empty=%d, source empty=%d -> %s (expected %s)' % (tobj, sobj, tempty, sempty, outcome, want))
+        n += 1
+        rep.check(not bad, 'E2.merge-decision', f.qn, 'replace exactly when NOT(target object AND source object AND target non-empty): 16 assignments of the four kind/emptiness tests', f.loc, '; '.join(bad[:3]), facts.config)
+
+        # (A) loop coverage
+        def gen_stmt(st):
+            out = []
+            for e in walk(st):
+                if e.get('k') == 'call' and e.get('cname') == 'AddMember' and on(e, tid):
+                    a = e.get('args', [])
+                    okv = len(a) >= 2 and any(x.get('k') == 'member' and x.get('name') == 'value' for x in walk(a[1]))
+                    if okv:
+                        out.append('merged')
+                if e.get('k') == 'call' and e.get('cname') == 'UpdateNodeLazy':
+                    a = e.get('args', [])
+                    if len(a) >= 2 and all(any(x.get('k') == 'member' and x.get('name') == 'value' for x in walk(y)) for y in a[:2]):
+                        out.append('merged')
+            return out
+
+        def kill_edge(b, cond, sense):
+            return ['merged'] if b == loop_head and sense is True else []
+        M = Must(f, gen_stmt=gen_stmt, kill_edge=kill_edge)
+        steps = 0
+        for bid, i, st in f.stmts():
+            s_ = strip(st)
+            if s_ is not None and s_.get('k') in ('un', 'call') and (s_.get('op') == '++' or s_.get('cname') == 'operator++'):
+                stt = M.at(bid, i)
+                if stt is None:
+                    continue
+                steps += 1
+                n += 1
+                rep.check('merged' in stt, 'E2.merge-loop', f.qn, 'every iteration appends or merges its member before %s' % show(s_), locline(s_['loc']),
+                          'no source member may be skipped: AddMember(name, value) or UpdateNodeLazy(found value, member value) on every path through the loop body', facts.config)
+        rep.require(steps >= 1, 'C20: iterator step of the member loop not found')
+        # iteration range: iterator initialised from source.MemberBegin(), compared with source.MemberEnd()
+        calls = [e.get('cname') for _, _, _, e in f.walk() if e.get('k') == 'call' and on(e, sid)]
+        n += 1
+        rep.check('MemberBegin' in calls and 'MemberEnd' in calls, 'E2.merge-loop', f.qn, 'the loop ranges over source.MemberBegin() .. source.MemberEnd()', f.loc, str(sorted(set(calls))), facts.config)
+
+        # (C) success returns
+        def gen_stmt2(st):
+            out = []
+            s_ = strip(st)
+            if s_ is not None and s_.get('k') == 'call' and s_.get('cname') == 'operator=' and len(s_.get('args', [])) == 2:
+                a0 = strip(s_['args'][0])
+                if a0 is not None and a0.get('k') == 'ref' and a0.get('id') == tid:
+                    out.append('replaced')
+            return out
+
+        def gen_edge2(b, cond, sense):
+            out = []
+            if b == loop_head and sense is False:
+                out.append('loopdone')
+            a = atom(cond)
+            if a is not None:
+                v = (sense is True) != a[1]
+                out.append(a[0] + ('=1' if v else '=0'))
+            return out
+        M2 = Must(f, gen_stmt=gen_stmt2, gen_edge=gen_edge2)
+        errv = facts.enum_values().get('kErrorNone', 0)
+        for bid, i, st in f.stmts():
+            s_ = strip(st)
+            if s_ is None or s_.get('k') != 'ret':
+                continue
+            stt = M2.at(bid, i)
+            if stt is None:
+                continue
+            c = cval(s_.get('e'))
+            success = (c == errv) or ('loopdone' in stt)
+            if c is not None and c != errv:
+                continue
+            if c is None and 'loopdone' not in stt:
+                continue          # returns a computed error value before the loop completed: an error exit
+            n += 1
+            nothing = {'tobj=1', 'sobj=1', 'tempty=0', 'sempty=1'} <= set(stt)
+            rep.check('replaced' in stt or 'loopdone' in stt or nothing, 'E2.merge-complete', f.qn, show(s_), locline(s_['loc']),
+                      'success is reported only after the target was replaced, after every source member was processed, or when there is provably nothing to merge; have %s' % sorted(stt), facts.config)
+        break
+    rep.require(n >= 5, 'C20: merge-skeleton obligations found: %d' % n)
+
+
 def run(rep, tier):
     configs = [('K1', ('::avx2::',))] if tier == 'quick' else [('K1', ('::avx2::',)), ('K3', ('::sse::',))]
     for cfg, ns in configs:
@@ -92,9 +271,11 @@ def run(rep, tier):
         # sibling site in SkipScanner::GetOnDemand must satisfy the same contract
         c11_entry.check(facts, rep, fam, only='GetOnDemand')
         ownership(facts, rep)
+        merge_skeleton(facts, rep)
     rep.min_instances('E3.decode-buffer', 4)
     rep.trust('clang 14 front end', 'zone analysis and callee summaries of C11', 'contract of parseStringInplace: scans to the first unescaped quote with VEC_LEN-byte block loads')
     rep.assumptions += [
         'decides only the clause "keys are matched by their decoded value" (private decode buffer contains the closing quote, has VEC_LEN-1 slack, ownership flag, error exit)',
-        'does NOT decide the merge semantics (recursive replace/append, no member lost): model-based behaviour',
+        'also decides the skeleton of UpdateNodeLazy: replace-or-merge decision truth table, every loop iteration appends or merges its member, success only after replacement / loop completion',
+        'does NOT decide the merge semantics end to end (which value ends up where): model-based behaviour',
     ]
